@@ -258,6 +258,21 @@ func init() {
 					bad("enum", text, "AddRule: "+err.Error(), "")
 					return
 				}
+				// two rules in one schema (added in either order): every property goes by its own list
+				mkTwo := func(fFirst bool) *jschema.Schema {
+					s2 := jschema.New("two", "{\n  \"a\": "+ex+", // {enum: @E}\n  \"b\": \"zz\" // {enum: @F}\n}")
+					add := []func() error{func() error { return s2.AddRule("@E", enum.New("@E", text)) }, func() error { return s2.AddRule("@F", enum.New("@F", "[\"zz\", 99]")) }}
+					if fFirst {
+						add[0], add[1] = add[1], add[0]
+					}
+					for _, f := range add {
+						if err := f(); err != nil {
+							bad("enum", text, "AddRule (two rules): "+err.Error(), "")
+						}
+					}
+					return s2
+				}
+				two, twoR := mkTwo(false), mkTwo(true)
 				inline := jschema.New("inline", ex+" // {enum: "+enumText(c.Items, 0)+"}")
 				// the list as the rule writes it (line breaks, // comments), inside a multi-line annotation: the same list
 				var inlineML *jschema.Schema
@@ -269,6 +284,20 @@ func init() {
 					a := guard(func() error { return named.Validate(jdoc.New("d", d)) })
 					b := guard(func() error { return inline.Validate(jdoc.New("d", d)) })
 					atomic.AddInt64(&evals, 2)
+					if want != 2 {
+						for _, s2 := range []*jschema.Schema{two, twoR} {
+							atomic.AddInt64(&evals, 2)
+							if g := guard(func() error { return s2.Validate(jdoc.New("d", "{\"a\": "+d+", \"b\": \"zz\"}")) }); g.OK != (want == 1) {
+								bad("enum", text, fmt.Sprintf("two rules in one schema: property a with %s: accepted=%v, membership in its own list says %v (%s)", d, g.OK, want == 1, g.Msg), d)
+								break
+							}
+							inF := d == "\"zz\"" || d == "99"
+							if g := guard(func() error { return s2.Validate(jdoc.New("d", "{\"a\": "+ex+", \"b\": "+d+"}")) }); g.OK != inF {
+								bad("enum", text, fmt.Sprintf("two rules in one schema: property b with %s: accepted=%v, membership in [\"zz\", 99] says %v (%s)", d, g.OK, inF, g.Msg), d)
+								break
+							}
+						}
+					}
 					if inlineML != nil {
 						atomic.AddInt64(&evals, 1)
 						if m := guard(func() error { return inlineML.Validate(jdoc.New("d", d)) }); m.OK != b.OK || m.Kind == "panic" {
